@@ -28,6 +28,8 @@ func runCanned(t *testing.T, tape *Tape, w *World, variant string, steps int, ou
 		out.v = r.cannedCopyTie()
 	case "pruned_ack":
 		out.v = r.cannedPrunedAck()
+	case "dl_chain":
+		out.v = r.cannedDLChain()
 	default:
 		panic("HARNESS: unknown canned scenario " + variant)
 	}
@@ -192,6 +194,41 @@ func (r *Run) cannedPrunedAck() *Violation {
 		func() *Violation { return r.doSeekSnap(2, 0) },
 		func() *Violation { r.sleep(5 * time.Second); return nil },
 		func() *Violation { return r.pullSub(r.sub(2), true) }, // expected m1 only
+	})
+}
+
+// dl_chain (must hold on the unchanged tree): two same-key messages of one topic, dead-lettered
+// in two SEPARATE steps, stay ordered on an ordered subscription of the dead-letter topic: the
+// second copy is chained behind the first.
+func (r *Run) cannedDLChain() *Violation {
+	return r.runSteps([]func() *Violation{
+		func() *Violation { return r.xTopic(0) },
+		func() *Violation { return r.xTopic(1) },
+		func() *Violation {
+			return r.xSub(0, 0, func(c *SubCfg, q *pubsubpb.Subscription) {
+				shortRetry(c, q)
+				c.DLTopic, c.MaxAttempts = r.M.LiveTopic(topicName(1)), 1
+				q.DeadLetterPolicy = &pubsubpb.DeadLetterPolicy{DeadLetterTopic: topicName(1), MaxDeliveryAttempts: 1}
+			})
+		},
+		func() *Violation {
+			return r.xSub(2, 1, func(c *SubCfg, q *pubsubpb.Subscription) {
+				shortRetry(c, q)
+				c.Ordered, q.EnableMessageOrdering = true, true
+			})
+		},
+		func() *Violation { return r.xPublish(0, nil, "K") },
+		func() *Violation { return r.pullSub(r.sub(0), false) },
+		func() *Violation { r.sleep(5 * time.Second); return nil },
+		func() *Violation { return r.pullSub(r.sub(0), false) }, // first copy forwarded
+		func() *Violation { return r.xPublish(0, nil, "K") },
+		func() *Violation { return r.pullSub(r.sub(0), false) },
+		func() *Violation { r.sleep(5 * time.Second); return nil },
+		func() *Violation { return r.pullSub(r.sub(0), false) }, // second copy forwarded, in its own step
+		func() *Violation { return r.pullSub(r.sub(2), false) }, // only the first copy may come
+		func() *Violation { r.sleep(5 * time.Second); return nil },
+		func() *Violation { return r.pullSub(r.sub(2), true) }, // first again (lease over), acknowledged
+		func() *Violation { return r.pullSub(r.sub(2), true) }, // now the second
 	})
 }
 
